@@ -27,6 +27,25 @@ def _parse(ctx, route, cell, width, V, rem):
     if route == 'from_cell':
         m = HashMap.from_cell(cell, width).map
         return {k: deser(s) for k, s in m.items()}
+    if route in ('load_dict_after_ref', 'preload_dict_after_ref'):
+        # the optional dictionary is not the first reference of its cell: a header reference is read before it, and another
+        # dictionary follows it
+        tail = ctx.bitstr('tail', 5)
+        hdr = Builder().store_uint(9, 4).end_cell()
+        other = HashMap(width).with_uint_values(8).set_int_key(0, 1).set_int_key((1 << width) - 1, 2).serialize()
+        s = Builder().store_ref(hdr).store_uint(5, 3).store_dict(cell).store_dict(other).store_bits(tail).end_cell().begin_parse()
+        ctx.require(s.load_ref().begin_parse().load_uint(4) == 9, 'wrapper: header reference')
+        ctx.require(s.load_uint(3) == 5, 'wrapper: prefix')
+        if route == 'preload_dict_after_ref':
+            res = s.preload_dict(width, None, deser)
+            ctx.require(And(s.remaining_bits == 7, s.remaining_refs == 2), 'wrapper: preload consumes nothing')
+        else:
+            res = s.load_dict(width, None, deser)
+            ctx.require(And(s.remaining_bits == 6, s.remaining_refs == 1), 'wrapper: load consumes the bit and the reference')
+        nxt = s.load_dict(width, None, lambda x: x.load_uint(8)) if route != 'preload_dict_after_ref' else None
+        if nxt is not None:
+            ctx.require(list(nxt.items()) == [(0, 1), ((1 << width) - 1, 2)], 'wrapper: the dictionary that follows is the other one')
+        return res
     if route in ('load_dict', 'preload_dict'):
         tail = ctx.bitstr('tail', 5)
         s = Builder().store_uint(5, 3).store_dict(cell).store_bits(tail).end_cell().begin_parse()
@@ -105,6 +124,53 @@ def h_two_maps(ctx, width, keys1, keys2):
         for (gk, gv), k in zip(got, sorted(vals)):
             ctx.require(And(gk == k, gv == vals[k]), f'two maps: pairs of the {tag} map')
     ctx.require(HashMap(width).with_uint_values(8).serialize() is None, 'two maps: a new map is empty')
+
+
+def h_incremental(ctx, width, keys, steps):
+    """one map object used over time: serialised, changed, serialised again.  After every step the cell is the one a freshly
+    built map with the current pairs gives, and parses back to the current pairs.  steps: ('int', k) set_int_key, ('set', k) set,
+    ('del', k) removal through the public mapping, ('vals',) switching the value kind helpers again"""
+    cur = {}
+    n = [0]
+
+    def fresh_val():
+        n[0] += 1
+        return ctx.uint(f'v{n[0]}', 8)
+    hm = HashMap(width).with_uint_values(8)
+    for k in keys:
+        cur[k] = fresh_val()
+        hm.set_int_key(k, cur[k])
+
+    def check(tag):
+        cell = hm.serialize()
+        ref = HashMap(width).with_uint_values(8)
+        for k in sorted(cur):
+            ref.set_int_key(k, cur[k])
+        want = ref.serialize()
+        if not cur:
+            ctx.require(cell is None, f'incremental use: empty again {tag}')
+            return
+        ctx.require(cell is not None and want is not None and cell.hash == want.hash, f'incremental use: the cell is that of a fresh map with the current pairs ({tag})')
+        if cell is None:
+            return
+        got = list(HashMap.parse(cell.begin_parse(), width, None, lambda s: s.load_uint(8)).items())
+        ctx.require(len(got) == len(cur), f'incremental use: number of pairs ({tag})')
+        for (gk, gv), k in zip(got, sorted(cur)):
+            ctx.require(And(gk == k, gv == cur[k]), f'incremental use: pairs ({tag})')
+    check('first')
+    for st in steps:
+        if st[0] == 'int':
+            cur[st[1]] = fresh_val()
+            hm.set_int_key(st[1], cur[st[1]])
+        elif st[0] == 'set':
+            cur[st[1]] = fresh_val()
+            hm.set(st[1], cur[st[1]])
+        elif st[0] == 'del':
+            del hm.map[st[1]]
+            del cur[st[1]]
+        elif st[0] == 'vals':
+            hm.with_uint_values(8)
+        check('after ' + st[0])
 
 
 def h_empty(ctx, width):
@@ -233,12 +299,15 @@ h_keyrange.symkeys = True
 # ------------------------------------------------------------------------------- instances
 def instances(tier, seed):
     rnd = random.Random(seed)
-    routes = ['parse', 'load_dict', 'preload_dict', 'from_cell', 'load_hashmap']
+    routes = ['parse', 'load_dict', 'preload_dict', 'from_cell', 'load_hashmap', 'load_dict_after_ref', 'preload_dict_after_ref']
     vks = ['u8', 'u64', 'i16', 'coins', 'addr', 'cell']
     n = 0
     # process-wide state shows up everywhere once present: the scenarios that pin it down run first
     yield 'h_two_maps', dict(width=4, keys1=[1, 7, 12], keys2=[2, 3, 8])
     yield 'h_two_maps', dict(width=8, keys1=[255], keys2=[0, 255])
+    for keys, steps in (([5, 200], [['int', 77]]), ([5, 200], [['set', 77]]), ([5, 200], [['int', 5]]), ([1], [['int', 0], ['int', 255], ['del', 1]]),
+                        ([3, 4, 9], [['del', 4], ['int', 4]]), ([3, 4], [['del', 3], ['del', 4], ['int', 8]]), ([7], [['vals'], ['int', 6], ['set', 7]])):
+        yield 'h_incremental', dict(width=8, keys=keys, steps=steps)
     for width in (1, 2, 3):
         for ks in key_sets(width):
             for o in orders(ks, n):
@@ -298,6 +367,7 @@ BOUNDS = {
     'symbolic keys': '2 fully symbolic keys for widths 1..4 (thorough 1..6), 3 for width 2 (thorough 2..4); wide keys (16..1023) symbolic in a 4-bit (thorough 6-bit) window, other bits concrete patterns',
     'key range': 'signed keys over width+2 bits for widths 1..4 (thorough 1..7) through set_int_key, set and a key serializer',
 }
+BOUNDS['incremental use'] = 'one map object serialised, changed (set_int_key, set, removal through the public mapping, value-kind helper) and serialised again: 7 scenarios, values symbolic'
 OUTSIDE = ['maps with more than 16 keys', 'fully symbolic wide keys', 'user-supplied serializers other than the built-in value kinds']
 STUBS = ['hashlib.sha256: injective uninterpreted function']
 ASSUMPTIONS = ['TL-B primitive encodings of specs/enc.py', 'bitarray model (validated per path witness)']
